@@ -62,7 +62,8 @@ def case_fn(c):
     elif kind == "expr_eval":
         fails = oracle.check_expr_eval(c["tree"], c["values"], style=c.get("style", 0), backend=c.get("backend", "default"))
     elif kind == "outputs":
-        fails = oracle.check_outputs(c["model"], c["request"], c["form"], c["vec"], pre_runs=tuple(c.get("pre_runs", ())))
+        fails = oracle.check_outputs(c["model"], c["request"], c["form"], c["vec"], pre_runs=tuple(c.get("pre_runs", ())),
+                                     **({"T": 2.0, "dt": 0.1} if c.get("features", {}).get("delayed") else {}))
     else:
         raise ValueError(kind)
     return dict(status="violated" if fails else "ok", fails=fails[:2])
